@@ -554,3 +554,4 @@ def run(ctx):
 
     shared(ctx, "C02.b", c01.rule_a, why="the extents of a sub-image are carried from Cartesian to matrix order through interpret_indexing: the table must be a signed bijection whose 'xyz' rows invert its 'ijk' rows")
     shared(ctx, "C02.b", c01.rule_b, why="subregion(CoordinateArray) and the sub-image's origin go through CoordinateSystem.voxel / coordinate")
+    ctx.guard(shared, ctx, "C02.b", c01.rule_d, why="origin and opposite corner of a sub-image are built by the point factories and the voxel conversions: no truncation toward zero, no rounding of coordinates on the way")
